@@ -208,7 +208,7 @@ def generate(run, tier):
     """TextModel = TypeGen + the model-level invariant; emits the cases."""
     if tier == 'quick':
         bfs = [(1, False, ['A'])]
-        sim = ('num=40', 4, ['A'])
+        sim = ('num=4', 3, ['A'])
     else:
         bfs = [(2, False, ['A']), (1, True, ['I'])]
         sim = ('num=1500', 6, ['E', 'A'])
